@@ -52,7 +52,8 @@ struct R {
     /// keys acknowledged with result Good
     acked: BTreeSet<(i64, u32)>,
     /// publish requests whose acknowledgement results are still to come: request id -> expected results
-    pending: HashMap<u32, Option<Vec<StatusCode>>>,
+    /// (for each acknowledgement the allowed results)
+    pending: HashMap<u32, Option<Vec<Vec<StatusCode>>>>,
     /// input class used if the op panics (computed before the op)
     panic_class: String,
 }
@@ -83,6 +84,7 @@ impl Runner for R {
         // property: both look at the same retained set)
         let mut expected_acks: Option<Vec<StatusCode>> = None;
         let mut good_acks: Vec<(i64, u32)> = Vec::new();
+        let mut ack_subs: Vec<i64> = Vec::new();
         if toks[0] == "publish" && toks.len() == 3 && toks[2] != "-" {
             let inner = &toks[2][1..toks[2].len() - 1];
             let mut vis = vis_before.clone();
@@ -91,6 +93,7 @@ impl Runner for R {
                 for t in inner.split(',') {
                     if let Some((a, b)) = t.split_once('.') {
                         if let (Ok(a), Ok(b)) = (a.parse::<i64>(), b.parse::<u32>()) {
+                            ack_subs.push(a);
                             if !alive_before.contains(&a) {
                                 v.push(StatusCode::BadSubscriptionIdInvalid);
                             } else if vis.remove(&(a, b)) {
@@ -119,7 +122,23 @@ impl Runner for R {
         match &out.observed {
             Observed::Publish { req_id, result, .. } => {
                 if result.is_ok() {
-                    self.pending.insert(*req_id, expected_acks.clone());
+                    // a subscription that expired inside this very request (the request first runs
+                    // the subscriptions when the request queue is full) may already be unknown when the
+                    // acknowledgements are looked at
+                    let alive_now = self.alive();
+                    let allowed = expected_acks.as_ref().map(|v| {
+                        v.iter()
+                            .zip(ack_subs.iter())
+                            .map(|(st, sub)| {
+                                if alive_before.contains(sub) && !alive_now.contains(sub) {
+                                    vec![*st, StatusCode::BadSubscriptionIdInvalid]
+                                } else {
+                                    vec![*st]
+                                }
+                            })
+                            .collect::<Vec<_>>()
+                    });
+                    self.pending.insert(*req_id, allowed);
                     for k in &good_acks {
                         self.acked.insert(*k);
                     }
@@ -171,7 +190,12 @@ impl Runner for R {
             match self.pending.remove(&r.req_id) {
                 None => fail(Verdict::fail("response_pairs_request", &class, format!("response for unknown request {}", r.req_id))),
                 Some(want) => {
-                    if want != r.results {
+                    let ok = match (&want, &r.results) {
+                        (None, None) => true,
+                        (Some(w), Some(g)) => w.len() == g.len() && w.iter().zip(g.iter()).all(|(a, b)| a.contains(b)),
+                        _ => false,
+                    };
+                    if !ok {
                         fail(Verdict::fail(
                             "ack_results",
                             &class,
